@@ -1,13 +1,14 @@
 // C24 — a transaction signature covers every semantic field.
 // Three oracles on the real code:
-//   O1 (round trip => injective): the bytes of Transaction.GetDataForSigning are parsed as generic JSON by
-//      the harness and all 12 semantic fields are recovered and compared with the transaction.
-//   O2 (metamorphic): a transaction that differs in one field (or by a swap of two fields) signs different
-//      bytes; equal field values (nil vs empty slices, other allocations, another signature) sign equal bytes.
-//   O3 (end to end): real ed25519 keys and signer, real InterceptedTransaction: a correctly signed
-//      transaction passes CheckValidity; with any field changed and the signature kept it fails. The same for
-//      the user transaction inside relayed v1 / v2 transactions whose outer transaction is re-signed by the
-//      relayer.
+//
+//	O1 (round trip => injective): the bytes of Transaction.GetDataForSigning are parsed as generic JSON by
+//	   the harness and all 12 semantic fields are recovered and compared with the transaction.
+//	O2 (metamorphic): a transaction that differs in one field (or by a swap of two fields) signs different
+//	   bytes; equal field values (nil vs empty slices, other allocations, another signature) sign equal bytes.
+//	O3 (end to end): real ed25519 keys and signer, real InterceptedTransaction: a correctly signed
+//	   transaction passes CheckValidity; with any field changed and the signature kept it fails. The same for
+//	   the user transaction inside relayed v1 / v2 transactions whose outer transaction is re-signed by the
+//	   relayer.
 package main
 
 import (
